@@ -179,7 +179,7 @@ class RoundTrip(UperBase):
 
     def oracle(self, req, ans):
         t = req.split(" ", 2)
-        if ans in ("panic", "abort"):
+        if ans in ("panic", "abort", "hang"):
             return "panic/abort while encoding or decoding a valid value"
         if not ans.startswith("ok "):
             return None     # encoding refused: not a C01 matter (C03/C06 decide whether it may)
@@ -307,7 +307,7 @@ class Shapes(UperBase):
         return bits, refusal
 
     def oracle(self, req, ans):
-        if ans in ("panic", "abort"):
+        if ans in ("panic", "abort", "hang"):
             return "panic/abort"
         n = self.req_name(req)
         items = uperlib.split_sx(req.split(" ", 3)[3])
@@ -381,7 +381,7 @@ class Conformance(UperBase):
         return n not in LITERAL_I64MAX
 
     def oracle(self, req, ans):
-        if ans in ("panic", "abort"):
+        if ans in ("panic", "abort", "hang"):
             return "panic/abort"
         if req.split(" ")[1] == "xdec":
             if not self.in_profile(req):
@@ -487,7 +487,7 @@ class CrossVersion(UperBase):
         return reqs
 
     def oracle(self, req, ans):
-        if ans in ("panic", "abort"):
+        if ans in ("panic", "abort", "hang"):
             return "panic/abort"
         if not ans.startswith("ok "):
             return None   # the writer refused (documented ext-inconsistent refusal)
@@ -565,7 +565,7 @@ class Violations(UperBase):
         return reqs
 
     def oracle(self, req, ans):
-        if ans in ("panic", "abort"):
+        if ans in ("panic", "abort", "hang"):
             return "panic/abort"
         v = getattr(self, "kind", {}).get(req)
         if v is not None:
@@ -647,7 +647,7 @@ class Hostile(UperBase):
         return reqs
 
     def oracle(self, req, ans):
-        if ans in ("panic", "abort") or "PANIC" in ans:
+        if ans in ("panic", "abort", "hang") or "PANIC" in ans:
             return "decoder panicked/aborted on untrusted input"
         if ans.startswith("ok "):
             bits = req.rsplit(" ", 1)[1]
@@ -670,3 +670,59 @@ class Hostile(UperBase):
 
     def nontrivial(self, req, ans):
         return True
+
+
+# ------------------------------------------------------------------- generated constants (C08, C03)
+
+class DescConsistency(UperBase):
+    """the descriptor constants the attribute macro expands to (STD_OPTIONAL_FIELDS, FIELD_COUNT,
+    EXTENDED_AFTER_FIELD, VARIANT_COUNT, STD_VARIANT_COUNT) for every compiled zoo type, compared
+    with what the component list / the zoo source says (independently in Python)"""
+    name = "uper-desc"
+    exhaustive = True
+
+    def gen(self, rng, tier):
+        return [f"uper desccheck {n} {self.desc[n]}" for n in self.names]
+
+    @staticmethod
+    def check_node(nd):
+        h = nd[0]
+        if h == "seq":
+            std_opt, count, ext = int(nd[1]), int(nd[2]), opt(nd[3])
+            fields = nd[4:]
+            if count != len(fields):
+                return f"FIELD_COUNT {count} but {len(fields)} components"
+            root = len(fields) if ext is None else ext + 1
+            if ext is not None and ext >= len(fields):
+                return f"EXTENDED_AFTER_FIELD {ext} beyond the {len(fields)} components"
+            want = sum(1 for f in fields[:root] if f[0] in ("o", "d"))
+            if std_opt != want:
+                return f"STD_OPTIONAL_FIELDS {std_opt} but {want} OPTIONAL/DEFAULT root components"
+            # the generator wraps every extension addition in Option or keeps DEFAULT
+            for f in fields[root:]:
+                if f[0] == "m":
+                    return "extension addition that is neither OPTIONAL nor DEFAULT"
+        elif h == "choice":
+            std, total = int(nd[1]), int(nd[2])
+            if total != len(nd[4:]):
+                return f"VARIANT_COUNT {total} but {len(nd[4:])} alternatives"
+            if std > total or (nd[3] == "0" and std != total):
+                return f"STD_VARIANT_COUNT {std} inconsistent with VARIANT_COUNT {total} / extensibility"
+        elif h == "enum":
+            std, total = int(nd[1]), int(nd[2])
+            if std > total or (nd[3] == "0" and std != total):
+                return f"STD_VARIANT_COUNT {std} inconsistent with VARIANT_COUNT {total} / extensibility"
+        return None
+
+    def oracle(self, req, ans):
+        if not ans.startswith("ok "):
+            return f"type cannot be described: {ans[:100]}"
+        for nd in ty_nodes(ans[3:]):
+            why = self.check_node(nd)
+            if why:
+                return "generated descriptor constants do not match the component list: " + why
+        # zoo_shape: the source is known from the name-independent shape generator: kinds and marker
+        return None
+
+    def tag(self, req, ans):
+        return "desc:" + self.req_name(req).split("::")[0]
